@@ -1336,6 +1336,27 @@ fn run_redb(kind: &str, inp: &[u8]) -> String {
     }
 }
 
+/// C19: search a block for a transaction id with the crate's own visitor
+fn run_find(inp: &[u8], id: &[u8]) -> String {
+    let mut arr = [0u8; 32];
+    arr.copy_from_slice(id);
+    let mut v = bsl::FindTransaction::new(bitcoin::Txid::from_byte_array(arr));
+    let r = bsl::Block::visit(inp, &mut v);
+    let res = match &r {
+        Ok(p) => common(inp, p.parsed().as_ref(), p.remaining()),
+        Err(e) => res_err(e),
+    };
+    let found = match v.tx_found() {
+        Some(tx) => format!("1,{}", dec(&bitcoin::consensus::serialize(&tx))),
+        None => "0".to_string(),
+    };
+    let fres = match &r {
+        Ok(_) => "0".to_string(),
+        Err(e) => format!("1,{}", err_code(e)),
+    };
+    format!("{} fres={} found={}", res, fres, found)
+}
+
 fn main() {
     std::panic::set_hook(Box::new(|_| {}));
     let stdin = std::io::stdin();
@@ -1382,6 +1403,16 @@ fn main() {
                 let c = <bsl::OutPoint as RedbKey>::compare(&a, &b);
                 let code = match c { core::cmp::Ordering::Less => 0, core::cmp::Ordering::Equal => 1, core::cmp::Ordering::Greater => 2 };
                 writeln!(out, "{} cmp={}", f[1], code).unwrap();
+            }
+            "F" => {
+                // Block::visit with bsl::FindTransaction::new(id), then tx_found()
+                let inp = unhex(f[2]);
+                let id = unhex(f[3]);
+                let r = catch_unwind(AssertUnwindSafe(|| run_find(&inp, &id)));
+                match r {
+                    Ok(s) => writeln!(out, "{} {}", f[1], s).unwrap(),
+                    Err(_) => writeln!(out, "{} res=2", f[1]).unwrap(),
+                }
             }
             "D" => {
                 let inp = unhex(f[3]);
